@@ -74,9 +74,10 @@ func impl(in hv.Val) hv.Val {
 	})
 	args := hv.AsList(in)
 	method := "GET"
-	if hv.AsInt(args[0]) == 1 {
+	if m := hv.AsInt(args[0]); m == 1 || m == 3 {
 		method = "HEAD"
 	}
+	open := hv.AsInt(args[0]) >= 2 // the request leaves its side of the stream open (no END_STREAM, no body sent)
 	script := decodeScript(args[3])
 
 	var results hv.L
@@ -167,7 +168,7 @@ func impl(in hv.Val) hv.Val {
 	enc.WriteField(hpack.HeaderField{Name: ":scheme", Value: "https"})
 	enc.WriteField(hpack.HeaderField{Name: ":authority", Value: "verif.test"})
 	enc.WriteField(hpack.HeaderField{Name: ":path", Value: "/"})
-	cfr.WriteHeaders(bfe_http2.HeadersFrameParam{StreamID: 1, BlockFragment: hb.Bytes(), EndStream: true, EndHeaders: true})
+	cfr.WriteHeaders(bfe_http2.HeadersFrameParam{StreamID: 1, BlockFragment: hb.Bytes(), EndStream: !open, EndHeaders: true})
 	cli.SetWriteDeadline(time.Now().Add(5 * time.Second))
 	if _, err := cli.Write(wbuf.Bytes()); err != nil {
 		return hv.Err(1)
